@@ -27,11 +27,14 @@ type Event struct {
 	Kind string `json:"kind"`  // signal, broadcast, waiter, wt (a second WaitTimeout caller)
 	// TimeoutMs: for kind "wt"
 	TimeoutMs uint64 `json:"timeout_ms,omitempty"`
+	// Cond: which of the two condition variables (each with its own mutex)
+	Cond int `json:"cond,omitempty"`
 }
 
 type Call struct {
 	TimeoutMs uint64 `json:"timeout_ms"`
 	GapUs     int64  `json:"gap_us"`
+	Cond      int    `json:"cond,omitempty"`
 }
 
 type Plan struct {
@@ -40,6 +43,9 @@ type Plan struct {
 	// U2S: when non-empty the plan is instead a set of concurrent callers of
 	// machine.UInt64ToString, one list of arguments per task
 	U2S [][]uint64 `json:"u2s,omitempty"`
+	// StallDen > 0: one yield in StallDen stalls (the clock advances while the
+	// task stands between two statements); time bounds allow for the stalls
+	StallDen int `json:"stall_den,omitempty"`
 }
 
 type c16 struct{}
@@ -127,6 +133,19 @@ func (c16) Gen(rng *simrt.Rand, tier string, run int) interface{} {
 		p.Events = append(p.Events, e)
 	}
 	sort.SliceStable(p.Events, func(i, j int) bool { return p.Events[i].AtUs < p.Events[j].AtUs })
+	if rng.Chance(1, 4) {
+		// two condition variables with their own mutexes: the calls and events
+		// are spread over them (state an implementation shares between conds)
+		for i := range p.Calls {
+			p.Calls[i].Cond = rng.Intn(2)
+		}
+		for j := range p.Events {
+			p.Events[j].Cond = rng.Intn(2)
+		}
+	}
+	if rng.Chance(1, 3) {
+		p.StallDen = rng.Pick(8, 40, 200)
+	}
 	return p
 }
 
@@ -239,10 +258,12 @@ func execU2S(p *Plan, tape *simrt.Tape, keepLog bool) harness.RunOut {
 }
 
 type stampedEv struct {
-	kind  string
-	call  int
-	stamp int64
-	at    int64 // simulated ns
+	kind    string
+	call    int
+	stamp   int64
+	at      int64 // simulated ns
+	cond    int
+	stalled int64 // stall time injected so far
 }
 
 const epsNs = int64(1_000_000)
@@ -255,30 +276,32 @@ func (c16) Exec(pj json.RawMessage, tape *simrt.Tape, keepLog bool) harness.RunO
 	if len(p.U2S) > 0 {
 		return execU2S(&p, tape, keepLog)
 	}
-	s := simrt.New(simrt.Config{DaemonsOK: true, Tape: tape, KeepLog: keepLog, MaxSteps: 200000})
+	s := simrt.New(simrt.Config{DaemonsOK: true, Tape: tape, KeepLog: keepLog, MaxSteps: 200000, StallDen: p.StallDen})
 	var evs []stampedEv
-	add := func(kind string, call int) {
-		// called while holding mu: the stamp order is the lock order
-		evs = append(evs, stampedEv{kind, call, simrt.Stamp(50), simrt.NowNs()})
+	add := func(kind string, call, cond int) {
+		// called while holding that cond's mutex: per cond, the stamp order is the lock order
+		seq, now, stalled := simrt.StampClock(50)
+		evs = append(evs, stampedEv{kind, call, seq, now, cond, stalled})
 	}
 	wtSeq := 0
 	lockHeld := make([]bool, len(p.Calls))
 	panics := make([]string, len(p.Calls))
 	callsDone := 0
 	res := s.Run(func() {
-		var mu simsync.Mutex
-		cond := simsync.NewCond(&mu)
+		var mus [2]simsync.Mutex
+		conds := [2]*simsync.Cond{simsync.NewCond(&mus[0]), simsync.NewCond(&mus[1])}
 		finished := false
 		for _, e := range p.Events {
 			e := e
 			simrt.GoNamed("event-"+e.Kind, func() {
 				simrt.Sleep(e.AtUs * 1000)
+				mu, cond := &mus[e.Cond&1], conds[e.Cond&1]
 				mu.Lock()
 				if finished {
 					mu.Unlock()
 					return
 				}
-				add(e.Kind, -1)
+				add(e.Kind, -1, e.Cond&1)
 				switch e.Kind {
 				case "signal":
 					cond.Signal()
@@ -293,19 +316,19 @@ func (c16) Exec(pj json.RawMessage, tape *simrt.Tape, keepLog bool) harness.RunO
 					wtSeq++
 					evs[len(evs)-1].call = -2 - my
 					machine.WaitTimeout(cond, e.TimeoutMs)
-					evs = append(evs, stampedEv{"wt-exit", -2 - my, simrt.Stamp(51), simrt.NowNs()})
+					seq, now, stalled := simrt.StampClock(51)
+					evs = append(evs, stampedEv{"wt-exit", -2 - my, seq, now, e.Cond & 1, stalled})
 				}
 				mu.Unlock()
 			})
 		}
-		mu.Lock()
 		for i, c := range p.Calls {
 			if c.GapUs > 0 {
-				mu.Unlock()
 				simrt.Sleep(c.GapUs * 1000)
-				mu.Lock()
 			}
-			add("entry", i)
+			mu, cond := &mus[c.Cond&1], conds[c.Cond&1]
+			mu.Lock()
+			add("entry", i, c.Cond&1)
 			func() {
 				defer func() {
 					if r := recover(); r != nil {
@@ -322,19 +345,27 @@ func (c16) Exec(pj json.RawMessage, tape *simrt.Tape, keepLog bool) harness.RunO
 			} else {
 				lockHeld[i] = true
 			}
-			add("exit", i)
+			add("exit", i, c.Cond&1)
 			callsDone++
+			mu.Unlock()
 			if panics[i] != "" {
 				break
 			}
 		}
+		for c := range mus {
+			mus[c].Lock()
+		}
 		finished = true
-		mu.Unlock()
+		for c := range mus {
+			mus[c].Unlock()
+		}
 		// release whoever still waits (plain waiters, stale helpers)
 		for k := 0; k < 6; k++ {
-			mu.Lock()
-			cond.Broadcast()
-			mu.Unlock()
+			for c := range mus {
+				mus[c].Lock()
+				conds[c].Broadcast()
+				mus[c].Unlock()
+			}
 			simrt.Sleep(1000)
 		}
 	})
@@ -377,30 +408,45 @@ func (c16) Exec(pj json.RawMessage, tape *simrt.Tape, keepLog bool) harness.RunO
 			return out
 		}
 	}
-	// ideal timed wait on a FIFO condition variable; events ordered by stamps
+	// ideal timed wait on a FIFO condition variable; events ordered by stamps;
+	// the two condition variables are independent of each other
 	sort.Slice(evs, func(i, j int) bool { return evs[i].stamp < evs[j].stamp })
+	for c := 0; c < 2 && out.Violation == nil; c++ {
+		judgeCond(&p, &out, evs, c, lockHeld, fail)
+	}
+	return out
+}
+
+// judgeCond replays the events of one condition variable against the ideal model.
+func judgeCond(p *Plan, out *harness.RunOut, all []stampedEv, c int, lockHeld []bool, fail func(oracle, facts, msg string)) {
+	var evs []stampedEv
+	for _, e := range all {
+		if e.cond == c {
+			evs = append(evs, e)
+		}
+	}
 	type qent struct{ call int }
 	var queue []qent
 	cur := -1
-	var entryAt, wakeAt int64
+	var entryAt, wakeAt, entryStall, wakeStall int64
 	woken := ""
 	earlierTimeout := false
 	for _, e := range evs {
 		switch e.kind {
 		case "entry":
-			cur, entryAt, woken = e.call, e.at, ""
+			cur, entryAt, entryStall, woken = e.call, e.at, e.stalled, ""
 			queue = append(queue, qent{e.call})
 		case "signal":
 			if len(queue) > 0 {
 				if queue[0].call == cur && cur >= 0 && woken == "" {
-					woken, wakeAt = "signal", e.at
+					woken, wakeAt, wakeStall = "signal", e.at, e.stalled
 				}
 				queue = queue[1:]
 			}
 		case "broadcast":
 			for _, q := range queue {
 				if q.call == cur && cur >= 0 && woken == "" {
-					woken, wakeAt = "broadcast", e.at
+					woken, wakeAt, wakeStall = "broadcast", e.at, e.stalled
 				}
 			}
 			queue = nil
@@ -421,20 +467,22 @@ func (c16) Exec(pj json.RawMessage, tape *simrt.Tape, keepLog bool) harness.RunO
 			i := e.call
 			if !lockHeld[i] {
 				fail("wt.lock-not-held", "", fmt.Sprintf("call %d WaitTimeout(%d ms) returned without holding the caller's lock (TryLock succeeded)", i, p.Calls[i].TimeoutMs))
-				return out
+				return
 			}
 			T := int64(p.Calls[i].TimeoutMs) * 1_000_000
 			switch {
-			case woken != "" && e.at > wakeAt+epsNs:
+			// a stalled thread is late by no fault of the implementation: the
+			// bound grows by the stall time injected while the call was waited for
+			case woken != "" && e.at > wakeAt+epsNs+(e.stalled-wakeStall):
 				facts := ""
 				if earlierTimeout && woken == "signal" {
 					facts = "/after-earlier-timeout"
 				}
-				fail("wt.late-"+woken, facts, fmt.Sprintf("call %d WaitTimeout(%d ms) entered at %dns; a %s took the lock after the call was entered at %dns, yet the call returned at %dns; earlier timed-out call on this cond: %v", i, p.Calls[i].TimeoutMs, entryAt, woken, wakeAt, e.at, earlierTimeout))
-				return out
-			case woken == "" && p.Calls[i].TimeoutMs < 1<<40 && e.at > entryAt+T+epsNs:
-				fail("wt.late-timeout", "", fmt.Sprintf("call %d WaitTimeout(%d ms) entered at %dns returned at %dns", i, p.Calls[i].TimeoutMs, entryAt, e.at))
-				return out
+				fail("wt.late-"+woken, facts, fmt.Sprintf("call %d WaitTimeout(%d ms) entered at %dns; a %s took the lock after the call was entered at %dns, yet the call returned at %dns (stalls injected meanwhile: %dns); earlier timed-out call on this cond: %v", i, p.Calls[i].TimeoutMs, entryAt, woken, wakeAt, e.at, e.stalled-wakeStall, earlierTimeout))
+				return
+			case woken == "" && p.Calls[i].TimeoutMs < 1<<40 && e.at > entryAt+T+epsNs+(e.stalled-entryStall):
+				fail("wt.late-timeout", "", fmt.Sprintf("call %d WaitTimeout(%d ms) entered at %dns returned at %dns (stalls injected meanwhile: %dns)", i, p.Calls[i].TimeoutMs, entryAt, e.at, e.stalled-entryStall))
+				return
 			}
 			if woken == "" {
 				earlierTimeout = true
@@ -451,7 +499,6 @@ func (c16) Exec(pj json.RawMessage, tape *simrt.Tape, keepLog bool) harness.RunO
 			cur = -1
 		}
 	}
-	return out
 }
 
 func main() {
